@@ -4,6 +4,7 @@
 P=$(realpath "$1"); shift
 CH=${@:-C01 C02 C03 C04 C05 C06 C07 C08 C09 C10 C11 C12 C13 C14 C15 C16 C17 C18 C19}
 cd /verif
+export VERIF_EVIDENCE_DIR=/tmp/seeded_evidence
 git -C /repo apply "$P" || { echo "patch does not apply"; exit 1; }
 for c in $CH; do
   out=$(./check $c 2>&1 | grep "VIOLATION\|^\[check\]")
